@@ -283,3 +283,76 @@ def forward(fn, init, transfer, join, start=0, blocks=None, edge=None):
                 instate[s] = o2
             work.append(s)
     return instate
+
+
+# ------------------------------------------------------------------ string comparisons
+def promoted_strs(prog, op):
+    """string literals held by the promoted/const an operand refers to"""
+    out = []
+    if op.get("k") != "const":
+        return out
+    if "str" in op:
+        return [op["str"]]
+    if "uneval" in op:
+        nm = op["uneval"]
+        if op.get("promoted") is not None:
+            nm = "%s::promoted[%d]" % (nm, op["promoted"])
+        f = prog.fns.get(nm)
+        if f is not None:
+            for b in f.blocks:
+                for s in b["stmts"]:
+                    if s["k"] == "assign":
+                        for key in ("a",):
+                            o = s["r"].get(key)
+                            if isinstance(o, dict) and "str" in o:
+                                out.append(o["str"])
+                        for o in s["r"].get("ops", []):
+                            if "str" in o:
+                                out.append(o["str"])
+    return out
+
+
+def operand_strs(prog, fn, op, depth=4):
+    """string literals an operand may denote, following single-definition temporaries, refs and promoteds"""
+    if op.get("k") == "const":
+        return promoted_strs(prog, op)
+    l = op_local(op)
+    p = op_place(op)
+    if p is None:
+        return []
+    l = p["l"]
+    if depth <= 0:
+        return []
+    sd = fn.single_def(l)
+    if not sd or sd[0] != "stmt":
+        return []
+    r = sd[3]["r"]
+    if r["k"] in ("use", "cast"):
+        return operand_strs(prog, fn, r["a"], depth - 1)
+    if r["k"] == "ref":
+        inner = r["p"]
+        return operand_strs(prog, fn, {"k": "copy", "p": {"l": inner["l"]}}, depth - 1)
+    return []
+
+
+def str_eq_guards(prog, fn):
+    """[(call_bb, literal, true_target_bb, false_target_bb)] for every `x == "lit"` test"""
+    out = []
+    for b, t, c in fn.calls():
+        if c is None or not c.endswith("::eq") or "PartialEq" not in c:
+            continue
+        lits = []
+        for a in t["args"]:
+            lits += operand_strs(prog, fn, a)
+        if not lits or t.get("t") is None:
+            continue
+        nb = t["t"]
+        # the result is switched on either in the continuation block or a later one using dest
+        tt = fn.term(nb)
+        if tt["k"] == "switch" and op_local(tt["a"]) == t["dest"]["l"]:
+            tgt = {v: x for v, x in tt["targets"]}
+            true_bb = tt["otherwise"] if 0 in tgt else tgt.get(1)
+            false_bb = tgt.get(0, tt["otherwise"])
+            for lit in lits:
+                out.append((b, lit, true_bb, false_bb))
+    return out
